@@ -109,7 +109,8 @@ Vhooks == Reals \cup Ints \cup { One, Wa, Coll2("seq", V1(S("+1"), IntN(10, S("+
                        Coll2("seq", Coll2("seq", R15, One), Coll1("seq", Rexp)), Coll2("set", R15, Wa),
                        \* zero and negative-zero magnitudes: a value that is falsy in Python still carries its units
                        WithU(Zero, M), WithU(RZero, M), WithU(RNegZero, M), Coll2("seq", WithU(Zero, M), RNegZero) }
-          \cup (IF Dialect \in OdlFam THEN {} ELSE { Coll2("set", One, Coll1("set", R15)), WithU(Coll2("seq", R15, Two), M), WithU(Wa, M) })
+          \cup (IF Dialect \in OdlFam THEN {} ELSE { Coll2("set", One, Coll1("set", R15)), WithU(Coll2("seq", R15, Two), M), WithU(Wa, M),
+                                                    Coll2("set", WithU(R15, M), Wa), Coll1("set", WithU(One, M)) })      \* quantities as members of a set
 Vuse == IF Profile = "layout" THEN Vlayout ELSE IF Profile = "hooks" THEN Vhooks ELSE Vfull
 NamesFull == { S("B2"), S("a_b"), S("ns:k"), S("^P"), S("x-y"), S("a.b"), S("9a") }
 NamesMissing == { S("^P"), S("ns:k") }
@@ -192,8 +193,8 @@ Build ==
 (* ---- layouts ---- *)
 SepsBase == << <<32>>, <<9>>, <<10>>, <<13>>, <<11>>, <<12>>, <<13, 10>>, <<32, 32>>, <<32, 10, 32>>,
                S("/**/"), S("/* c */"), S(" /* c */ "), S("/* * / */"), S("/*/ x */"), S("/***/"), S("/* a") \o LF \o S("b */"),
-               S("/* \" ' */"), S("/* = */"), S("/* END */"), S("/**//**/"), S("/* < */"), S("/* in data/*/") >>
-SepsHash == << S(" # c") \o LF, LF \o S("#c") \o LF \o S("  "), S(" # /* c") \o LF, S(" # = END ' \"") \o LF >>
+               S("/* \" ' */"), S("/* = */"), S("/* END */"), S("/**//**/"), S("/* < */"), S("/* in data/*/"), S("/* see #3 */") >>
+SepsHash == << S(" # c") \o LF, LF \o S("#c") \o LF \o S("  "), S(" # /* c") \o LF, S(" # = END ' \"") \o LF, S(" # -- ") \o LF >>
 Seps == IF HashComments(Dialect) THEN SepsBase \o SepsHash ELSE SepsBase
 Styles == << [opt |-> <<>>, req |-> <<32>>], [opt |-> <<32>>, req |-> <<10>>], [opt |-> <<9>>, req |-> <<13, 10, 32, 32>>],
             [opt |-> <<10>>, req |-> <<10, 10>>],          \* every token on its own line, blank lines between statements
